@@ -8,7 +8,7 @@ git -C /repo worktree add -q "$WT" HEAD || exit 2
 # the evidence file of the real tree must survive the trial
 cp "evidence/$PID.json" "/tmp/evidence-$PID-$$.json" 2>/dev/null
 LOW="$(echo "$PID" | tr 'A-Z' 'a-z')"
-trap 'mv "/tmp/evidence-$PID-$$.json" "/verif/evidence/$PID.json" 2>/dev/null; git -C /repo worktree remove --force "$WT" >/dev/null 2>&1; cd /verif && PYTHONPATH=/repo/src:/verif /venv/bin/python -c "from tools import $LOW as m; m.gen()" >/dev/null 2>&1' EXIT
+trap 'mv "/tmp/evidence-$PID-$$.json" "/verif/evidence/$PID.json" 2>/dev/null; git -C /repo worktree remove --force "$WT" >/dev/null 2>&1; cd /verif && PYTHONPATH=/repo/src:/verif /venv/bin/python -c "from tools import $LOW as m, c03; (m.gen if hasattr(m, \"gen\") else (lambda: c03.write_gen(\"C03\")))()" >/dev/null 2>&1' EXIT
 if [ -n "$DEMO" ]; then
   PYTHONPATH="$WT/src" /venv/bin/python "$DEMO" >/dev/null 2>&1; echo "demo on clean tree: exit $?"
 fi
